@@ -480,40 +480,17 @@ def ReasonSelectionFull : Prop :=
     (step (run c ops) (.tick taken)).2 = .sent l left →
     ∀ x ∈ l, ∃ a, (Spec.run c ops).arr x.1 = some a ∧ x.2.1 = documentedReason c a
 
-/-- witness configuration: `SpanLimit = 2^32 + 1` (accepted: the setting is a `uint`) -/
-def witnessCfg : Cfg := { traceTimeout := 1000, sendDelay := 50, spanLimit := 4294967297, maxExpired := 0 }
-/-- witness history: two child spans, then the trace times out -/
-def witnessOps : List Op := [.span 1 false 1, .span 1 false 1, .adv 1000]
-
-/-- **reason_selection is refuted for `SpanLimit ≥ 2^32`**: `sendExpiredTracesInCache` converts the
-limit with `uint32(SpanLimit)`, so a trace with 2 spans under `SpanLimit = 2^32+1` that merely
-timed out is reported as `trace_send_span_limit` (reproduced on the real code:
-corpus/C03/span-limit-truncated.ops). -/
-theorem reason_selection_refuted : ¬ ReasonSelectionFull := by
-  intro hfull
-  have h := hfull witnessCfg witnessOps [1] [(1, .spanLimit, 2)] [] (by decide)
-    (1, .spanLimit, 2) List.mem_cons_self
-  obtain ⟨a, ha, hr⟩ := h
-  have harr : (Spec.run witnessCfg witnessOps).arr 1 =
-      some { first := 0, rootAt := none, limitAt := none, count := 2 } := by decide
-  rw [harr] at ha
-  cases ha
-  revert hr
-  decide
-
-theorem reasonOf_eq_documented (c : Cfg) (hlim : c.spanLimit < countModulus) (tr : Tr) (a : Arr)
+theorem reasonOf_eq_documented (c : Cfg) (tr : Tr) (a : Arr)
     (hc : tr.count = a.count) (hr : tr.hasRoot = a.rootAt.isSome) :
     reasonOf c tr = documentedReason c a := by
-  have h32 : c.limit32 = c.spanLimit := Nat.mod_eq_of_lt hlim
-  simp only [reasonOf, documentedReason, h32, hc, hr]
+  simp only [reasonOf, documentedReason, hc, hr]
 
-/-- **reason_selection (partial: `SpanLimit < 2^32`)** — after any history, every trace a tick
-decides is reported 'got root' iff a root span has arrived, else 'span limit' iff its span count
-exceeds `SpanLimit`, else 'expired'. -/
-theorem reason_selection_partial (c : Cfg) (hlim : c.spanLimit < countModulus) (ops : List Op)
-    (taken : List Nat) (l : List Sent) (left : List Nat)
-    (h : (step (run c ops) (.tick taken)).2 = .sent l left) :
-    ∀ x ∈ l, ∃ a, (Spec.run c ops).arr x.1 = some a ∧ x.2.1 = documentedReason c a := by
+/-- **reason_selection** — for every configuration (every `SpanLimit`, also beyond 2^32: the former
+`uint32(SpanLimit)` truncation is repaired, regression case corpus/C03/span-limit-truncated.ops)
+and after any history, every trace a tick decides is reported 'got root' iff a root span has
+arrived, else 'span limit' iff its span count exceeds `SpanLimit`, else 'expired'. -/
+theorem reason_selection : ReasonSelectionFull := by
+  intro c ops taken l left h
   obtain ⟨_, hl, _, _⟩ := tick_accepted h
   have hcfg : (run c ops).cfg = c := (inv_run c ops).1
   intro x hx
@@ -522,7 +499,12 @@ theorem reason_selection_partial (c : Cfg) (hlim : c.spanLimit < countModulus) (
   obtain ⟨a, ha, _, _, hc, hr⟩ := deadline_formula c ops x.1 tr hg
   refine ⟨a, ha, ?_⟩
   rw [hxe, hcfg]
-  exact reasonOf_eq_documented c hlim tr a hc hr
+  exact reasonOf_eq_documented c tr a hc hr
+
+/-- regression witness of the repaired defect: `SpanLimit = 2^32 + 1`, two child spans, timeout -/
+def witnessCfg : Cfg := { traceTimeout := 1000, sendDelay := 50, spanLimit := 4294967297, maxExpired := 0 }
+def witnessOps : List Op := [.span 1 false 1, .span 1 false 1, .adv 1000]
+example : (step (run witnessCfg witnessOps) (.tick [1])).2 = .sent [(1, .expired, 2)] [] := by decide
 
 /-- Whatever the limit, 'got root' is reported exactly for the traces that hold a root span, and a
 trace without root under `SpanLimit = 0` (no limit) is always 'expired'. -/
@@ -536,7 +518,7 @@ theorem reason_root_iff (c : Cfg) (tr : Tr) :
       split <;> simp
     · simp
   · intro h0 hr
-    simp [reasonOf, hr, Cfg.limit32, h0]
+    simp [reasonOf, hr, h0]
 
 /-! ## non-vacuity: concrete histories evaluated by the kernel -/
 
